@@ -223,6 +223,21 @@ class _Narrow(object):
                     if isinstance(x, ast.expr):
                         self.expr(x, S)
 
+    def truthy_returns(self, stmts, S):
+        """For a predicate body: the classes for which some `return` can yield a truthy value."""
+        self._rets = []
+        self._collect = True
+        try:
+            self.block(stmts, S)
+        finally:
+            self._collect = False
+        out = frozenset()
+        for val, cur in self._rets:
+            if val is None or (isinstance(val, ast.Constant) and not val.value):
+                continue
+            out |= self.test(val, cur)[0] if not isinstance(val, ast.Constant) else cur
+        return out
+
     def block(self, stmts, S):
         """-> classes the variable can be when the block is left normally (None when it always leaves the iteration)."""
         for st in stmts:
@@ -242,6 +257,9 @@ class _Narrow(object):
                 return a
             return a | b
         if isinstance(st, (ast.Continue, ast.Break, ast.Return, ast.Raise)):
+            if isinstance(st, ast.Return) and getattr(self, '_collect', False):
+                self._rets.append((st.value, S))
+                return None             # the value is analysed by truthy_returns under this state
             for ch in ast.iter_child_nodes(st):
                 if isinstance(ch, ast.expr):
                     self.expr(ch, S)
@@ -289,6 +307,8 @@ def _sessionkey_iterations(fn, universe):
         if isinstance(n, ast.Assign) and len(n.targets) == 1 and isinstance(n.targets[0], ast.Name):
             assigns.setdefault(n.targets[0].id, []).append(n.value)
 
+    local_defs = {n.name: n for n in ast.walk(fn.node) if isinstance(n, ast.FunctionDef) and n is not fn.node}
+
     def elements(it, depth=0):
         """Classes of the elements of iterable `it` if it derives from a session-key list, else None."""
         if depth > 4:
@@ -305,6 +325,11 @@ def _sessionkey_iterations(fn, universe):
             if S is not None and isinstance(lam, ast.Lambda) and len(lam.args.args) == 1:
                 nr = _Narrow(lam.args.args[0].arg, universe)
                 return nr.test(lam.body, S)[0]
+            if S is not None and isinstance(lam, ast.Name) and lam.id in local_defs and len(local_defs[lam.id].args.args) == 1:
+                # filter(<local predicate>, ...): the elements for which the predicate can return something truthy
+                d = local_defs[lam.id]
+                nr = _Narrow(d.args.args[0].arg, universe)
+                return nr.truthy_returns(d.body, S)
             return S
         if isinstance(it, (ast.GeneratorExp, ast.ListComp, ast.SetComp)) and len(it.generators) == 1 and \
                 isinstance(it.generators[0].target, ast.Name) and isinstance(it.elt, ast.Name) and it.elt.id == it.generators[0].target.id:
